@@ -690,6 +690,9 @@ def iter_interval_items(model):
 PROBES = [None, -5.0, 0.0, 1.0, 1.5, 2.0, 2.5, 3.0, 20.0, 21.0, 439.0, 440.0, 441.0, 442.0, 500.0, 559.5, 560.0, 563.0, 1000.0]
 
 
+_PREV_MODEL: list = []     # (yaml text, as_dict after loading) of the previous model case
+
+
 def check_model(ck, case, batch):
     from glotaran.io import load_model, save_model
 
@@ -732,6 +735,29 @@ def check_model(ck, case, batch):
             return
         if model.source_path != Path(f).as_posix() or loaded.source_path != Path(f).as_posix():
             ck.violation("model-source-path", f"source_path after save/load: {model.source_path!r} / {loaded.source_path!r}, file {f}", case)
+        # what a path loads is what the file at that path holds NOW: another model's file moved onto the same path from
+        # outside the library (mv / cp -p / restoring a backup, so with an OLDER modification time) is what is loaded next
+        # (round-2 seeded change C17-5: parsed yaml cached per path and refreshed only when the file is newer)
+        text_now = f.read_text()
+        if case.get("replaced_by") and not _PREV_MODEL:      # replay of a recorded case: rebuild the other model's file
+            g = d / "other_model.yml"
+            g.write_text(case["replaced_by"])
+            _PREV_MODEL[:] = [(case["replaced_by"], plain(load_model(g).as_dict()))]
+        if _PREV_MODEL:
+            other_text, other_after = _PREV_MODEL[0]
+            try:
+                st = os.stat(f)
+                f.write_text(other_text)
+                os.utime(f, (st.st_atime - 1000, st.st_mtime - 1000))
+                again = plain(load_model(f).as_dict())
+                ck.oracle_evals += 1
+                ck.count("model:file-replaced-by-older-file")
+                if not same_value(listify(other_after), listify(again)):
+                    ck.violation("model-stale-after-file-replaced", "load_model(path) after the file at that path was replaced (from outside, "
+                                 "older mtime) by another model's file does not give that model", {**case, "replaced_by": other_text})
+            except Exception as e:  # noqa: BLE001
+                ck.violation("model-stale-after-file-replaced", f"load_model of a replaced file raises {e!r}"[:300], case)
+        _PREV_MODEL[:] = [(text_now, plain(after))]
     # correspondence: the loaded model's as_dict is what the Lean model predicts from the saved one's
     if not sig.isascii() or "%C" in sig or "%E" in sig or "%D" in sig:
         ck.count("model:non-ascii-oracle-only")
